@@ -465,6 +465,9 @@ func zzGen2(sh zzShape, pre string) *zzAbs {
 			if fl < 1 {
 				fl = 1
 			}
+			if sh.form == 3 && i%2 == 1 {
+				fl = 0 // an empty-but-present filter (malformed, yet constructible)
+			}
 			a.filters = append(a.filters, g.content("filter"+zzItoa(i), fl, true))
 			o := g.dU8(g.pre + "opt" + zzItoa(i))
 			// reserved bits 0, QoS != 3, retain handling != 3
@@ -486,6 +489,9 @@ func zzGen2(sh zzShape, pre string) *zzAbs {
 			if fl < 1 {
 				fl = 1
 			}
+			if sh.form == 3 && i%2 == 1 {
+				fl = 0 // an empty-but-present filter (malformed, yet constructible)
+			}
 			a.filters = append(a.filters, g.content("filter"+zzItoa(i), fl, true))
 		}
 	case 12, 13:
@@ -493,11 +499,14 @@ func zzGen2(sh zzShape, pre string) *zzAbs {
 		a.reason = g.dU8(g.pre + "reason")
 		a.props = g.props("", sh.typ, sh.mask, sh.nUser, 0)
 	}
-	if sh.form >= 1 {
+	if sh.form == 1 || sh.form == 2 {
 		a.props = nil
 	}
 	if sh.form == 2 {
 		a.reason = 0
+	}
+	if sh.form == 3 {
+		a.form = 0
 	}
 	zzAssume(g.dom)
 	return a
